@@ -100,6 +100,19 @@ example : (match parseArgs 'a' "1 2 3 011 1 2,3,4 1,0-5.5e1".toList with | .ok l
     [.num "1", .num "2", .num "3", .flag false, .flag true, .num "1", .num "1",
          .num "2", .num "3", .num "4", .flag true, .flag false, .num "-5.5e1"] := by decide +kernel
 
+/-- C10-k (arity, whole parser): every command `parse_svg_path(s, exploded=True)` yields — for every string it accepts — carries
+    exactly the number of arguments `_CMD_ARGS` gives its letter, including the commands that implicit repetition renames
+    (`M`→`L`, `m`→`l`: same arity).  By an invariant over the loop across the command parts, with `check_cmd` and
+    `_explode_cmd` (C10-d) per part. -/
+theorem exploded_commands_have_their_arity (cs : List Char) (out : List (Char × List Arg))
+    (h : parse true cs = .ok out) : ∀ e ∈ out, numArgs e.1 = some e.2.length :=
+  PathLex.parse_arity cs out h
+
+/-- non-vacuity: an implicit lineto after a moveto, a relative repeat and a closepath -/
+example : (match parse true "M1 2 3 4l5,6-7.5.5z".toList with | .ok l => l | .error _ => []) =
+    [('M', [.num "1", .num "2"]), ('L', [.num "3", .num "4"]), ('l', [.num "5", .num "6"]),
+     ('l', [.num "-7.5", .num ".5"]), ('z', [])] := by decide +kernel
+
 /-! tie to the source: the regular expressions and tables the scanners stand for -/
 theorem gen_cmd_re : Gen.cmdRe = ("([mzlhvcsqtaMZLHVCSQTA])", 32) := by decide
 theorem gen_separator_re : Gen.separatorRe = ("[, ]+", 32) := by decide
